@@ -489,15 +489,15 @@ func V6OutOfRange() []Named {
 	// compressed names written out (the exhaustive name alphabets are a Range in Run)
 	ex := []byte{7, 'e', 'x', 'a', 'm', 'p', 'l', 'e', 3, 'c', 'o', 'm', 0}
 	for i, nm := range [][]byte{
-		cat(ex, []byte{3, 's', 'u', 'b', 0xc0, 0}),                             // sub.example.com via pointer to offset 0
-		cat(ex, []byte{3, 's', 'u', 'b', 0xc0, 8}),                             // sub.com via pointer into the middle
-		cat(ex, []byte{0xc0, 0}),                                               // a bare pointer
-		cat(ex, []byte{1, 'a', 0xc0, 0, 1, 'b', 0xc0, 8, 1, 'c', 0}),           // three names, two pointers
-		cat(ex, []byte{3, 's', 'u', 'b'}),                                      // trailing partial name
-		cat(ex, []byte{3, 's', 'u', 'b', 0xc0, 0, 4, 'p', 'a', 'r', 't'}),      // pointer then partial
-		{3, 'f', 'o', 'o', 0, 3, 'b', 'a', 'r', 0xc0, 0},                       // bar.foo
-		{1, 'a', 0, 0xc0, 0, 0xc0, 0},                                          // the same name three times
-		{0}, {0, 0}, {1, 'a', 0, 0},                                            // root names
+		cat(ex, []byte{3, 's', 'u', 'b', 0xc0, 0}),                        // sub.example.com via pointer to offset 0
+		cat(ex, []byte{3, 's', 'u', 'b', 0xc0, 8}),                        // sub.com via pointer into the middle
+		cat(ex, []byte{0xc0, 0}),                                          // a bare pointer
+		cat(ex, []byte{1, 'a', 0xc0, 0, 1, 'b', 0xc0, 8, 1, 'c', 0}),      // three names, two pointers
+		cat(ex, []byte{3, 's', 'u', 'b'}),                                 // trailing partial name
+		cat(ex, []byte{3, 's', 'u', 'b', 0xc0, 0, 4, 'p', 'a', 'r', 't'}), // pointer then partial
+		{3, 'f', 'o', 'o', 0, 3, 'b', 'a', 'r', 0xc0, 0},                  // bar.foo
+		{1, 'a', 0, 0xc0, 0, 0xc0, 0},                                     // the same name three times
+		{0}, {0, 0}, {1, 'a', 0, 0},                                       // root names
 		cat([]byte{63}, []byte(corpus6.Label63), []byte{0, 1, 'z', 0xc0, 0}), // maximal label + pointer
 	} {
 		add(fmt.Sprintf("names/domain-list/%d", i), top.Wrap(24, nm))
